@@ -640,6 +640,10 @@ namespace
 
     std::vector <std::unique_ptr <value_die>> m_next;
 
+    // DIE's referenced by the DIE that is currently being iterated.
+    std::unique_ptr <value_die> m_next_spec;
+    std::unique_ptr <value_die> m_next_origin;
+
     void
     schedule (Dwarf_Attribute &at)
     {
@@ -650,13 +654,24 @@ namespace
       if (dwarf_formref_die (&at, &die_mem) == nullptr)
 	throw_libdw ();
 
-      m_next.push_back
-	(std::make_unique <value_die> (m_dwctx, die_mem, 0, m_doneness));
+      auto &slot = at.code == DW_AT_specification
+	? m_next_spec : m_next_origin;
+      if (slot == nullptr)
+	slot = std::make_unique <value_die> (m_dwctx, die_mem, 0, m_doneness);
     }
 
     bool
     next_die ()
     {
+      // Go depth first and look into DW_AT_specification before
+      // DW_AT_abstract_origin, whichever comes first in the DIE.
+      // That's the order in which @AT_* looks, and the two need to
+      // agree on which of several candidates gets integrated.
+      if (m_next_origin != nullptr)
+	m_next.push_back (std::move (m_next_origin));
+      if (m_next_spec != nullptr)
+	m_next.push_back (std::move (m_next_spec));
+
       if (m_next.empty ())
 	return false;
 
